@@ -26,7 +26,7 @@ Additional ops:
         {"scalar": elem} | {"unsized": elem} | {"seq": [isArray, [elem, …]]} | {"nested": [isArray, rank, [elem, …]]};
         elem = ["n/d", typeOk, convOk, h5Ok]; answer {"ds": null | [rank, ["n/d", …]], "stamp": n, "err": null | class}
   ["link_run", function, [hasLen, iterable, hasCount, isSeq], [[plain, minusOne, neg, cmpOk, storable], …],
-        [colIsInt, colVal], targetRank, targetCols, state]       the link-building functions of Pure/LinkWrite.lean run on
+        [colIsInt, colVal], targetRank, targetCols, state (, otherFile)]   the link-building functions of Pure/LinkWrite.lean run on
         the step lists of Generated/LinkOrder.lean (stateless): function = a name of `LinkOrder.all`; state = null (the
         descriptor does not exist yet) | [ticks, linked]; answer {"err": null | class, "dim": null | {"ticks": b,
         "link": null | {"fresh": b, "complete": b, "index": null | n, "column": null | i}}, "ndims": n, "touched": b}
@@ -192,7 +192,7 @@ def parseEntry (j : Json) : Option Entry :=
   | _ => none
 
 open Nix.LinkWrite Nix.Generated.LinkOrder in
-def linkRun (name : String) (caps entries col rank cols state : Json) : Json :=
+def linkRun (name : String) (caps entries col rank cols state : Json) (otherFile : Bool := false) : Json :=
   let steps? := (Nix.Generated.LinkOrder.all.find? (·.1 == name)).map (·.2)
   let file? : Option File :=
     if isNull state then some { dim := none, ndims := 1, stamp := 1 }
@@ -203,7 +203,7 @@ def linkRun (name : String) (caps entries col rank cols state : Json) : Json :=
       | _ => none
   match steps?, file?, (jArr caps).toList, (jArr entries).toList.mapM parseEntry, (jArr col).toList, jInt? rank, jInt? cols with
   | some steps, some f, [a, b, c, d], some es, [ci, cv], some rk, some nc =>
-    let call : Call := ⟨⟨jBool a, jBool b, jBool c, jBool d, es⟩, ⟨jBool ci, (jInt? cv).getD 0⟩, 7, rk.toNat, nc.toNat, 5, 9⟩
+    let call : Call := ⟨⟨jBool a, jBool b, jBool c, jBool d, es⟩, ⟨jBool ci, (jInt? cv).getD 0⟩, 7, rk.toNat, nc.toNat, 5, 9, otherFile⟩
     let r := run call steps f
     ok (Json.mkObj [
       ("err", match r.2 with | none => Json.null | some e => Json.str e.toString),
@@ -313,6 +313,8 @@ def step (g : Graph) (j : Json) : Graph × Json :=
   | [.str "propcreate_run", flags] => (g, propCreateRun flags)
   | [.str "copy_run", .str name, kind, nm, keep, children] => (g, copyRun name kind nm keep children)
   | [.str "link_run", .str name, caps, entries, col, rank, cols, state] => (g, linkRun name caps entries col rank cols state)
+  | [.str "link_run", .str name, caps, entries, col, rank, cols, state, other] =>
+    (g, linkRun name caps entries col rank cols state (jBool other))
   | [.str "vec_set", .str name, stored, stamp, now, arg] => (g, vecSet name stored stamp now arg)
   | [.str "vec_ticks", stored, linked, arg] => (g, vecTicks stored linked arg)
   | [.str "create_block", nm, .str ty] =>
